@@ -11,6 +11,7 @@ import FontVerif.Lemmas.GvarMulti
 import FontVerif.Lemmas.GvarSum
 import FontVerif.Lemmas.GvarHeadline
 import FontVerif.Lemmas.GvarScalar
+import FontVerif.Lemmas.GvarStreams
 import FontVerif.Props.C10Data
 set_option linter.unusedVariables false
 namespace FontVerif.C10
@@ -1037,6 +1038,23 @@ theorem written_dense_tuple_stream_wf (ds : List GDelta) (hd : ∀ d ∈ ds, inI
   rw [hcy] at b
   exact ⟨a, b⟩
 
+/-- **missing link 2, glyph-level plumbing**: for every glyph `writeGlyph` serialises (any choice of
+shared peak tuples; shared point numbers as `compute_shared_points` picks them), the reader returns
+raw tuples that pair up one-to-one with the input tuples, and each raw tuple's point-number bytes and
+delta bytes AS SKRIFA SELECTS THEM (`RawTuple.ptsAndDeltas g.sharedPts`: private bytes when the
+PRIVATE_POINT_NUMBERS bit is set, otherwise the glyph's shared bytes) are the writer's streams of its
+input tuple (`StreamOf`: packed `t.best` followed by anything, and `encodeDeltas xs ++ encodeDeltas ys`
+of the selected deltas) — the inputs of `written_sparse_tuple_stream_wf` /
+`written_dense_tuple_stream_wf`.  The reader's view equality of `glyph_variations_roundtrip` comes
+along (it fixes `allPoints`). -/
+theorem written_glyph_streams (ax : Nat) (shared : List (List Int)) (hshared : shared.length ≤ 4096)
+    (ts : List TupleIn) (hne : ts ≠ []) (hok : ∀ t ∈ ts, TupleOk ax t)
+    (bytes : List Nat) (hw : writeGlyph shared ts = some bytes) (rest : List Nat) :
+    ∃ g, readGlyph ax (bytes ++ rest) = some g ∧
+      g.tuples.map (RawTuple.view shared g.sharedPts) = ts.map TupleIn.view ∧
+      List.Forall₂ (fun r t => StreamOf t r g.sharedPts) g.tuples ts :=
+  writeGlyph_roundtrip_s ax shared hshared ts hne hok bytes hw rest
+
 /- FULL STATEMENT `written_then_applied_within_tolerance`: for every input to `Gvar::new` (tuples whose
 deltas went through `iup_delta_optimize` at tolerance τ), skrifa's output coordinate computed from the
 WRITTEN bytes is within `1/2 + Σ_t ((den_t − 1)/131072 + (s_t/65536)·τ)` of
@@ -1051,8 +1069,10 @@ tuples of the written bytes satisfy `SparseWF ∨ DenseWF` needs the stream stru
 `read_dense_deltas` analogue of `readSparse_runs`; and the identification of the decoded tuples' `ds`
 with the input deltas restricted to the kept set.  STATE: for ONE written tuple with explicit point
 numbers both are proved (`written_sparse_tuple_stream_wf`: all stream conjuncts of `SparseWF`, values read =
-input deltas of the kept points); still missing: the all-points analogue (`readDense` over `runsOf`), the
-glyph-level plumbing (which tuple reads private vs shared point numbers: `RawTuple.ptsAndDeltas g.sharedPts`
+input deltas of the kept points); the all-points analogue is `written_dense_tuple_stream_wf`, and the glyph-level plumbing is
+exported as `written_glyph_streams` (Forall₂ StreamOf); still missing: assembling these three into
+`SparseWF ∨ DenseWF` per active tuple (bounds ±Δ on the input deltas, `points.length = deltas.length`,
+zip with the scalars), and — formerly listed — the plumbing (which tuple reads private vs shared point numbers: `RawTuple.ptsAndDeltas g.sharedPts`
 of each tuple `readGlyph` returns = the writer's `(pb ++ junk, encodeDeltas xs ++ encodeDeltas ys)`, to be
 exported from `built_view` / `built_list` / `writeGlyphWith_roundtrip`), and feeding
 `iup_delta_optimize_sound` for the τ hypothesis.  The active-tuple scalar range is now derived
